@@ -569,8 +569,8 @@ static ssize_t ck_read(void *c, char *buf, size_t n)
     size_t avail = s->len - s->pos, take = n < avail ? n : avail;
     sim_step();
     simfd_stat_cookie_reads++;
-    if (s->failed) { fault_fired(FC_READ, FO_EIO); tr_printf("stream read -> EIO (unreadable)"); errno = EIO; return -1; }
-    if (out == FO_EIO) { fault_fired(FC_READ, FO_EIO); tr_printf("stream read -> EIO"); s->failed = 1; errno = EIO; return -1; }
+    if (s->failed) { fault_fired(FC_READ, FO_EIO); tr_printf("stream read -> EIO (unreadable)"); simfd_hard_error = 1; errno = EIO; return -1; }
+    if (out == FO_EIO) { fault_fired(FC_READ, FO_EIO); tr_printf("stream read -> EIO"); s->failed = 1; simfd_hard_error = 1; errno = EIO; return -1; }
     if (out == FO_SHORT && take > 1) {
         size_t lim = (size_t)F_PARAM(f);
         if (lim < 1) lim = 1;
